@@ -9,5 +9,8 @@ RULES = {"C11.a", "C11.b", "C11.c", "C11.d", "C11.e"}
 
 def check(ctx):
     cursor.analyze(ctx, RULES)
+    # the mode switch a peek reports is decided by the same transition lookup next() uses
+    from . import pC06
+    pC06.transition_lookup_rules(ctx)
     from .common import cache_foundation
     cache_foundation(ctx)
